@@ -263,7 +263,9 @@ class _ZipWrap:
 
 
 # ------------------------------------------------------------------ workload
-NAMES = ["data", "a.b.c", "archive.tar", "x.nc", "weird name", "UPPER.TXT"]
+NAMES = ["data", "a.b.c", "archive.tar", "x.nc", "weird name", "UPPER.TXT",
+         # names that *are* a format key or start with a dot: still no suffix
+         "gz", ".xz", "zip", ".bz2", "xz"]
 PLAIN_SUFFIX = ["", ".dat", ".txt", ".GZ", ".gzip", ".z"]
 
 
@@ -387,6 +389,7 @@ class Exec:
         self.nontrivial = False
         self.body_points = []        # (block, kind) positions available
         self.archive_blocks = {}     # block index -> (path, fmt, member, content)
+        self.allowed = set()         # files that may exist in the data directory
         self.log = []
 
     def probe(self, k):
@@ -431,6 +434,7 @@ class Exec:
             d = os.path.join(data, "sub") if blk["subdir"] else data
             os.makedirs(d, exist_ok=True)
             path = os.path.join(d, blk["name"])
+            self.allowed.add(path)
             content = bytes.fromhex(blk["content"])
             pre = None
             if blk["preexisting"]:
@@ -533,6 +537,7 @@ class Exec:
             raw = _std_compress(fmt, member, content)
             with open(path, "wb") as f:
                 f.write(raw)
+            self.allowed.add(path)
         corrupt = fault[2:] if fault and fault[0] == "corrupt" and fault[1] == bi else None
         pristine = None
         if corrupt is not None:
@@ -634,6 +639,16 @@ class Exec:
             self.archive_blocks[bi] = (path, fmt, member, content)
 
     def _check_debris(self, bi, tmp_default, tmp_explicit, copy_path):
+        data = os.path.join(self.root, "data")
+        for dp, dn, fn in os.walk(data):
+            for f in fn:
+                p = os.path.join(dp, f)
+                if p not in self.allowed and p != copy_path:
+                    self.V.append(_viol(
+                        "C12/debris/target-directory",
+                        f"block {bi}: unexpected file "
+                        f"{os.path.relpath(p, data)} next to the target"))
+                    os.remove(p)
         for d, label in ((tmp_default, "default temp dir"),
                          (tmp_explicit, "explicit tmpdir")):
             left = os.listdir(d)
